@@ -83,35 +83,56 @@ func runVF33(p *Prog, r *RuleRun) {
 					r.OK(key, posOf(p, ms), "allocation size does not depend on a caller-supplied integer")
 					continue
 				}
-				// both bounds established on the parameter by dominating comparisons with constants
-				upper, lower := false, false
-				for _, gb := range fn.Blocks {
-					if len(gb.Instrs) == 0 {
-						continue
-					}
-					ifi, ok := gb.Instrs[len(gb.Instrs)-1].(*ssa.If)
-					if !ok {
-						continue
-					}
-					bo, ok := ifi.Cond.(*ssa.BinOp)
-					if !ok || paramOf(bo.X, 0) != prm {
-						continue
-					}
-					if _, isC := bo.Y.(*ssa.Const); !isC {
-						continue
-					}
-					for side, succ := range gb.Succs {
-						if !(succ == b || succ.Dominates(b)) || len(succ.Preds) != 1 {
+				// both bounds established on the parameter by comparisons with constants that dominate the place
+				// where the parameter-derived value is computed (for a phi: each incoming edge separately)
+				var boundedAt func(v ssa.Value, at *ssa.BasicBlock, depth int) bool
+				guards := func(at *ssa.BasicBlock) bool {
+					upper, lower := false, false
+					b := at
+					for _, gb := range fn.Blocks {
+						if len(gb.Instrs) == 0 {
 							continue
 						}
-						truth := side == 0
-						le := (bo.Op == token.LEQ || bo.Op == token.LSS) && truth || (bo.Op == token.GTR || bo.Op == token.GEQ) && !truth
-						ge := (bo.Op == token.GEQ || bo.Op == token.GTR) && truth || (bo.Op == token.LSS || bo.Op == token.LEQ) && !truth
-						upper = upper || le
-						lower = lower || ge
+						ifi, ok := gb.Instrs[len(gb.Instrs)-1].(*ssa.If)
+						if !ok {
+							continue
+						}
+						bo, ok := ifi.Cond.(*ssa.BinOp)
+						if !ok || paramOf(bo.X, 0) != prm {
+							continue
+						}
+						if _, isC := bo.Y.(*ssa.Const); !isC {
+							continue
+						}
+						for side, succ := range gb.Succs {
+							if !(succ == b || succ.Dominates(b)) || len(succ.Preds) != 1 {
+								continue
+							}
+							truth := side == 0
+							le := (bo.Op == token.LEQ || bo.Op == token.LSS) && truth || (bo.Op == token.GTR || bo.Op == token.GEQ) && !truth
+							ge := (bo.Op == token.GEQ || bo.Op == token.GTR) && truth || (bo.Op == token.LSS || bo.Op == token.LEQ) && !truth
+							upper = upper || le
+							lower = lower || ge
+						}
 					}
+					return upper && lower
 				}
-				r.Check(upper && lower, key, posOf(p, ms), "the allocation is sized by "+prm.Name()+" only within constant bounds",
+				boundedAt = func(v ssa.Value, at *ssa.BasicBlock, depth int) bool {
+					if depth > 6 || paramOf(v, 0) == nil {
+						return true // does not depend on the parameter
+					}
+					if phi, ok := v.(*ssa.Phi); ok {
+						for i, e := range phi.Edges {
+							if !boundedAt(e, phi.Block().Preds[i], depth+1) {
+								return false
+							}
+						}
+						return true
+					}
+					return guards(at)
+				}
+				okBounds := boundedAt(ms.Len, b, 0) && boundedAt(ms.Cap, b, 0)
+				r.Check(okBounds, key, posOf(p, ms), "the allocation is sized by "+prm.Name()+" only within constant bounds",
 					"an allocation in "+funcDisplay(fn)+" is sized by the caller-supplied "+prm.Name()+" without a dominating bound on both sides: a huge value (\"no limit\") or a negative one makes make() panic or reserve an absurd amount of memory, although the copy loop handles every batch size")
 			}
 		}
